@@ -589,6 +589,10 @@ def enableIs (c : Circuit) (nodes : Array CNode) (bind : Nat → Option Bind) (i
         | some (.lnot a _) =>
           argBelow m a && cd.op == .eq && cd.first.isPlain && !cd.usesEach &&
             matchOperand c nodes bind i cd.first a && (match cd.second with | .const k => k == 0 | _ => false)
+        | some (.gate op a b (.int k) _) =>
+          -- `(a op b) : k` with a positive constant is positive exactly when the comparison holds
+          Facto.cmp .gt k 0 && argBelow m a && argBelow m b && cd.op == op && cd.first.isPlain && !cd.usesEach &&
+            matchOperand c nodes bind i cd.first a && matchOperand c nodes bind i cd.second b
         | _ => false)
      | _ => false)
   | _ => false
@@ -793,6 +797,8 @@ def proposeEnable (c : Circuit) (nodes : Array CNode) (i : Nat) (w : Arg) : Prop
            (match cd.first with | .ref _ sel => [(bn, Bind.many (c.loud i sel))] | _ => []) ++ ((proposeArg c nodes i cd.second rhs).getD [])
          | some (.lnot a _) =>
            if cd.op == .eq && (match cd.second with | .const k => k == 0 | _ => false) then (proposeArg c nodes i cd.first a).getD [] else []
+         | some (.gate op a b (.int _) _) =>
+           if cd.op == op then ((proposeArg c nodes i cd.first a).getD []) ++ ((proposeArg c nodes i cd.second b).getD []) else []
          | _ => [])
       | _ => []
     -- an inlined comparison wins when its shape fits (the value node then has no combinator)
